@@ -142,6 +142,13 @@ Section Session.
     end.
   Definition run_session (sched : list step) : sess := fold_left do_step sched init.
 
+  (* Connection.connect() on an object that has been through a session: _connect() makes a new socket (no cipher), a new
+     outgoing queue and resets the compression options, connect() resets [spawned] and installs a new login reactor; what was
+     written, joined and called back before stays history.  (The secret of the section is the one of the login that follows.) *)
+  Definition reconnect (s : sess) : sess :=
+    {| s_play := false; s_comp := None; s_enc := None; s_queue := []; s_wire := s_wire s; s_joins := s_joins s;
+       s_spawned := false; s_end := None; s_exits := s_exits s |}.
+
   Definition received (sched : list step) : list inpkt :=
     flat_map (fun st => match st with SRecv p => [p] | _ => [] end) sched.
 End Session.
